@@ -1533,6 +1533,15 @@ def rule_R12frozencopy(text, applied, arg=None):
     return t
 
 
+def rule_R45(text, applied):
+    """`X.to_vec()` on a slice / Vec of Copy ids -> `vcopied(X)` (the unit's verified copy loop: an equal vector; `to_vec`
+    clones element by element and Clone of a Copy type is the copy).  Applies zero or more times."""
+    t, n = _sub_masked(text, r"((?:\w+\s*\.\s*)*\w+)\s*\.\s*to_vec\(\)", lambda m, s_: f"vcopied({''.join(m.group(1).split())})")
+    if n:
+        applied.append(f"R45x{n}")
+    return t
+
+
 def rule_R7own(text, applied):
     """`for X in E {` where E is a path to an owned Vec of Copy elements (consumed by the loop) -> increment-first
     index loop over the moved vector: `let ownN_ = E; let mut oN_: usize = 0; while oN_ < ownN_.len() { let X = ownN_[oN_]; oN_ += 1;`"""
@@ -2399,7 +2408,7 @@ RULES = {
     "R25": rule_R25, "R7optake": rule_R7optake,
     "R23": rule_R23, "R24": rule_R24,
     "R16push": rule_R16push, "R22": rule_R22, "R22flat": rule_R22flat,
-    "R20": rule_R20, "R21": rule_R21, "R7stackrev": rule_R7stackrev, "R7pairs": rule_R7pairs, "R7indexmap": rule_R7indexmap, "R12frozen": rule_R12frozen, "R12frozencopy": rule_R12frozencopy, "R40": rule_R40, "R39": rule_R39, "R7intoenum": rule_R7intoenum, "substws": rule_substws, "R38": rule_R38, "R9enc": rule_R9enc, "R37": rule_R37, "R36": rule_R36, "R35": rule_R35, "R16oiw": rule_R16oiw, "R9blockon": rule_R9blockon, "R34": rule_R34, "R31": rule_R31, "R30": rule_R30, "R26it": rule_R26it, "R29": rule_R29, "R7own": rule_R7own, "R28": rule_R28, "R27": rule_R27, "R8all": rule_R8all, "R16od": rule_R16od, "R10site": rule_R10site,
+    "R20": rule_R20, "R21": rule_R21, "R7stackrev": rule_R7stackrev, "R7pairs": rule_R7pairs, "R7indexmap": rule_R7indexmap, "R12frozen": rule_R12frozen, "R45": rule_R45, "R12frozencopy": rule_R12frozencopy, "R40": rule_R40, "R39": rule_R39, "R7intoenum": rule_R7intoenum, "substws": rule_substws, "R38": rule_R38, "R9enc": rule_R9enc, "R37": rule_R37, "R36": rule_R36, "R35": rule_R35, "R16oiw": rule_R16oiw, "R9blockon": rule_R9blockon, "R34": rule_R34, "R31": rule_R31, "R30": rule_R30, "R26it": rule_R26it, "R29": rule_R29, "R7own": rule_R7own, "R28": rule_R28, "R27": rule_R27, "R8all": rule_R8all, "R16od": rule_R16od, "R10site": rule_R10site,
     "R1": rule_R1, "R2": rule_R2, "R2ref": rule_R2ref, "R3": rule_R3, "R4": rule_R4, "R5": rule_R5,
     "R8max": rule_R8max, "R8cmpmax": rule_R8cmpmax, "R8resize_none": rule_R8resize_none, "R9": rule_R9, "R8position": rule_R8position, "R8rotate": rule_R8rotate, "R12refcell": rule_R12refcell,
     "R8slice": rule_R8slice, "R7iter": rule_R7iter, "R8bitget": rule_R8bitget, "R8intonext": rule_R8intonext, "R8find": rule_R8find, "R41": rule_R41, "R44": rule_R44, "R43": rule_R43, "R42": rule_R42, "R8rposition": rule_R8rposition, "R8contains": rule_R8contains, "R12cell": rule_R12cell, "R8resize_veccap": rule_R8resize_veccap, "R8collectid": rule_R8collectid, "R8index": rule_R8index, "subst": rule_subst,
